@@ -41,11 +41,37 @@ func (c lifeCfg) String() string {
 }
 
 // runLife runs one call sequence; it returns a violation (clause, detail) or "".
-func runLife(cfg lifeCfg, seq []string, states map[string]struct{}) (clause, detail string) {
+// With no context configured every sequence is in addition judged by the generic oracle suite (every-point monitors,
+// interval clauses, rest counts): extra receives what it reports, each clause under its own property.
+func runLife(cfg lifeCfg, seq []string, states map[string]struct{}) (clause, detail string, extra []vrt.Violation) {
 	h := NewH()
-	h.NoMon = true
+	judge := !cfg.ctx
+	h.NoMon = !judge
+	h.CrashProp, h.HangProp = "C14", "C14"
 	var cancel context.CancelFunc
-	x := vrt.Run(nil, nil, nil, func() {
+	setup := func(sc *vrt.Sched) {
+		if judge {
+			sc.Monitor = h.monitor
+		}
+	}
+	defer func() {
+		if judge && clause != "engine" {
+			seen := map[string]bool{}
+			for _, v := range h.V {
+				if !seen[v.Clause] && v.Clause != clause {
+					seen[v.Clause] = true
+					extra = append(extra, v)
+				}
+			}
+		}
+	}()
+	var x *vrt.Exec
+	defer func() {
+		if judge && x != nil && x.EngineErr == "" {
+			h.Judge(x)
+		}
+	}()
+	x = vrt.Run(nil, nil, setup, func() {
 		var opts []any
 		if cfg.ctx {
 			var ctx context.Context
@@ -214,21 +240,25 @@ func runLife(cfg lifeCfg, seq []string, states map[string]struct{}) (clause, det
 				}
 			}
 		}
-		h.Final = true
+		if judge {
+			h.End()
+		} else {
+			h.Final = true
+		}
 	})
 	if clause != "" {
 		return
 	}
 	if x.Crash != "" {
-		return "C14.crash", firstLine(x.Crash) + " @ " + x.CrashFrame
+		return "C14.crash", firstLine(x.Crash) + " @ " + x.CrashFrame, nil
 	}
 	if x.EngineErr != "" {
-		return "engine", x.EngineErr
+		return "engine", x.EngineErr, nil
 	}
 	if x.UserBlocked > 0 {
-		return "C14.hang", "a lifecycle call never returned after " + lastOps(seq)
+		return "C14.hang", "a lifecycle call never returned after " + lastOps(seq), nil
 	}
-	return "", ""
+	return "", "", nil
 }
 
 func firstLine(s string) string {
@@ -269,7 +299,14 @@ func enumLife(r *SeqReport, cfg lifeCfg, depth int, first string) {
 		if len(seq) > 0 {
 			r.Traces++
 			r.Transitions += int64(len(seq))
-			cl, det := runLife(cfg, seq, states)
+			cl, det, extra := runLife(cfg, seq, states)
+			for _, v := range extra {
+				k := v.Clause + "|" + collapseDigits(v.Detail)
+				if !seen[k] && len(r.V) < 60 {
+					seen[k] = true
+					r.V = append(r.V, SeqViolation{v.Prop, v.Clause, v.Detail, cfg.String() + ": " + strings.Join(seq, " ")})
+				}
+			}
 			if cl == "engine" {
 				r.Notes = append(r.Notes, "ENGINE: "+det)
 				r.Exhaustive = false
@@ -517,12 +554,21 @@ func enumStrategy(r *SeqReport, kmax, pmax int, kindSet []QK) {
 	r.MaxDepth = kmax*pmax + 1
 }
 
+// lifeProps: the configurations without a context are judged by the whole oracle suite, so they are part of the
+// checks of every property whose clauses the suite can report on them.
+func lifeProps(cfg lifeCfg) []string {
+	if cfg.ctx {
+		return []string{"C14"}
+	}
+	return []string{"C14", "C01", "C02", "C03", "C06", "C09", "C16", "C17", "C18"}
+}
+
 func init() {
 	cfgs := []lifeCfg{{}, {pending: true}, {ctx: true, pending: true}, {ctx: true, expiry: true}, {busy: true}}
 	for _, cfg := range cfgs {
 		cfg := cfg
 		Register(&Scenario{
-			Name: "seq-life/" + cfg.String() + "/d3", Props: []string{"C14"}, Seq: true, Only: "quick",
+			Name: "seq-life/" + cfg.String() + "/d3", Props: lifeProps(cfg), Seq: true, Only: "quick",
 			SeqRun: func(r *SeqReport) {
 				r.Exhaustive = true
 				enumLife(r, cfg, 3, "")
@@ -535,7 +581,7 @@ func init() {
 				continue
 			}
 			Register(&Scenario{
-				Name: "seq-life/" + cfg.String() + "/d5/" + first, Props: []string{"C14"}, Seq: true, Only: "thorough",
+				Name: "seq-life/" + cfg.String() + "/d5/" + first, Props: lifeProps(cfg), Seq: true, Only: "thorough",
 				SeqRun: func(r *SeqReport) {
 					r.Exhaustive = true
 					d := 5
